@@ -88,6 +88,22 @@ def run_shard(pid, spec, ctx, case_gen, monitor, extra=None):
             if i % 211 == 1:
                 ctx.sample({"encoding": rec["layers"][0]["name"], "input": repr(rec["data"][:100]), "payload": repr(rec["payload"][:40])})
         return
+    if spec["gen"] == "big":
+        from vf.gens import codecgen
+        for form, n, rec in codecgen.big_cases(pid, r, spec.get("sizes")):
+            if ctx.expired():
+                break
+            if rec is None:
+                ctx.count("redrawn(domain)")
+                continue
+            case = {"kind": "rec", "rec": c02.encode_rec(rec)}
+            if not ctx.begin(case):
+                continue
+            ctx.count("big_cases")
+            ctx.counters["big_max_blob_bytes"] = max(ctx.counters.get("big_max_blob_bytes", 0), len(rec["blob"]))
+            judge_rec(rec, ctx, case, monitor)
+            ctx.sample({"encoding": form, "blob_bytes": len(rec["blob"]), "payload_bytes": len(rec["payload"])})
+        return
     if spec["gen"] == "extra" and extra is not None:
         extra(r, ctx)
         return
